@@ -42,9 +42,25 @@ def run(chk):
         confs.append(dict(n=int(rng.integers(1, 5)), p=float(rng.choice([0.0, 0.5, 1.0])), t=steps, r=rv,
                           sigma=float(rng.choice([0.0, 0.2, 1.0, rng.random()])), seed=int(rng.integers(0, 10000))))
         chk.count("contracting_long_runs")
-    for c in confs:
+    # dense networks whose node degrees run through every value up to ~120 (reciprocal-degree arithmetic: k * fl(1/k) is
+    # 1 - 2^-53 for k = 49, 98, 103, 107, ...): complete graphs on 50 / 99 / 104 / 108 nodes and dense random graphs
+    for nd, pd_ in ([(50, 1.0), (99, 1.0), (100, 0.5)] if chk.tier == "quick" else
+                    [(50, 1.0), (99, 1.0), (104, 1.0), (108, 1.0), (162, 1.0), (100, 0.5), (120, 0.4), (110, 0.9)]):
+        # spread over the case list so that the heavy in-kernel evaluations land in different (parallel) shards
+        confs.insert(min(len(confs), 3 + 26 * len([c for c in confs if c.get("n", 0) >= 50 and c.get("p", 0) >= 0.4])),
+                     dict(n=nd, p=pd_, t=int(rng.integers(12, 30)), r=float(rng.choice([3.7, 3.99, 4.0])),
+                          sigma=float(rng.choice([0.3, 0.7, 1.0])), seed=int(rng.integers(0, 10000))))
+    for ci, c in enumerate(confs):
         XY, A = logisic_dynamics(**c)
-        XY2, A2 = logisic_dynamics(**c)
+        if ci % 5 == 1 and isinstance(A, np.ndarray) and A.flags.writeable:
+            # the caller post-processes the returned ground truth in place (binarises it) before asking again
+            keepA = A.copy()
+            A[A > 0] = 1.0
+            XY2, A2 = logisic_dynamics(**c)
+            A = keepA
+            chk.count("history.returned_matrix_edited_in_place_between_calls")
+        else:
+            XY2, A2 = logisic_dynamics(**c)
         full = dict(n=20, p=0.1, t=100, r=3.99, sigma=0.1, seed=42)
         full.update(c)
         R = np.asarray(A).T
@@ -56,11 +72,13 @@ def run(chk):
         elif XY.min() < 0 or XY.max() > 1:
             fail = f"values outside [0,1]: min {XY.min()}, max {XY.max()}"
         elif not (np.array_equal(XY, XY2) and np.array_equal(A, A2)):
-            fail = "two calls with the same seed differ"
+            fail = "two calls with the same arguments differ (the second one possibly after the caller edited the FIRST call's returned matrix in place)"
         elif np.any(R < 0) or np.any(np.abs(R.sum(axis=1) - np.round(R.sum(axis=1))) > 1e-12) or np.any(R.sum(axis=1) > 1 + 1e-12):
             fail = "the coupling matrix used in the update (transpose of the returned one) is not row-substochastic"
         pf.append(fail)
         rows = XY if XY.shape[0] * XY.shape[1] <= 500 else XY[:max(2, 500 // XY.shape[1])]
+        if full["n"] >= 50 and R.size and np.count_nonzero(R) > 0.3 * R.size:
+            rows = XY[:3]                         # dense large networks: two exact steps in Coq (n^2 rational products each); predicate: whole series
         if full["t"] > 300:                       # long contracting runs: tiny values have 1000-bit rational literals; the first rows suffice for the
             rows = XY[:25]                        # step-wise comparison, the predicate above has looked at the whole series
         if not np.all(np.isfinite(rows)):
@@ -78,7 +96,7 @@ def run(chk):
     lib.correspond(chk, "stepwise_model_vs_impl", IMPORTS, "Q * Q * list (list Q) * list (list Q)",
                    f"check_traj_case {qlit(1e-12)}", cases, pf, lambda i: desc[i], shard=25, jobs=14, timeout=1500)
     chk.rule = ("logisic_dynamics called with the default arguments and with sampled (n 1..30, p in {0,...,1}, t 1..200, r in [0,4] incl. 0, "
-                "3.99, 4, sigma in [0,1] incl. 0 and 1, seeds), single-node networks with p in {0, 0.5, 1.0, 1}, and contracting maps 0 < r < 1 run until the states have decayed through the subnormal range (t up to 4000). The map is chaotic, so trajectories are compared STEP-WISE: the exact-rational "
+                "3.99, 4, sigma in [0,1] incl. 0 and 1, seeds), single-node networks with p in {0, 0.5, 1.0, 1}, complete graphs on 50 / 99 nodes and dense random graphs (every node degree up to ~100), a second call after the caller binarised the first call's returned matrix in place, and contracting maps 0 < r < 1 run until the states have decayed through the subnormal range (t up to 4000). The map is chaotic, so trajectories are compared STEP-WISE: the exact-rational "
                 "model step applied to the implementation's own row t-1 must reproduce row t within 1e-12 (inside Coq), with the coupling "
                 "matrix recovered from the returned matrix. Predicate on the implementation: every value finite and in [0,1]. "
                 "Distinct = distinct argument tuple; non-trivial = at least one update step.")
